@@ -69,6 +69,7 @@ def cases(tier, seed):
     for d in devs:
         for pre in itertools.product(range(len(INCS)), repeat=2):
             out.append(dict(fam="solver", dev=d, screening=False, prefix=list(pre), L=L - 1 if tier == "quick" else L))
+            out.append(dict(fam="solver", dev=d, screening=False, prefix=list(pre), L=(L - 2 if tier == "quick" else L - 1), fail_last=True))
         for pre in itertools.product(range(len(INCS)), repeat=1):
             out.append(dict(fam="solver", dev=d, screening=True, prefix=list(pre), L=Ls))
     return out
@@ -306,8 +307,12 @@ def run_solver(case):
         captured = []
         orig = tdgl.TDGLSolver.solve_for_psi_squared
 
+        inject = {"refuse": False}
+
         def wrapper(**kw):
             captured.append(kw["psi_laplacian"].toarray())
+            if inject["refuse"]:
+                return None  # the environment refuses this update: with a fixed step the library raises, after the operators were refreshed
             return orig(**kw)
 
         solver.solve_for_psi_squared = wrapper
@@ -330,6 +335,9 @@ def run_solver(case):
         for stage, n in plan:
             if stage == 2 and n == 0:
                 time = 0.0
+            # fail_last: the last step of stage 1 fails after its refresh (a refused update at a fixed time step raises); the
+            # next stage starts on the same solver (a second solve() after a failed one)
+            inject["refuse"] = bool(case.get("fail_last") and stage == 1 and n == L)
             captured.clear()
             A_in = vals[4]
             rs.clear()
@@ -337,6 +345,9 @@ def run_solver(case):
                 out = solver.update({"step": n, "time": time, "dt": d}, rs, d, **dict(zip(names, vals)))
             except RuntimeError as exc:
                 if "converge" in str(exc):
+                    if inject["refuse"]:
+                        res.count("stage1_ended_by_injected_refusal")
+                        continue  # the state handed to the next stage is that of the last completed step
                     # documented failure mode (jumping field / screening): the step is not run at all
                     res.count("scripts_ended_by_refusal")
                     break
